@@ -1170,8 +1170,9 @@ def rule_P4_sampler(ctx, rid='P4', rid6='P6'):
             if cfg.can_reach(nid, i, avoid=(incr - {i}) | full, edge_ok=edge_ok_for(nid)):
                 firsts.append(i)
         for i in firsts:
-            uc = [x for x in _calls_to(run, 'write_shell_update') if cfg.node_of(x).id == i][0]
-            sarg = uc.args[1] if len(uc.args) > 1 else None
+            uc = [x for x in _calls_to(run, 'write_shell_update', u_wrap)
+                  if cfg.node_of(x).id == i][0]
+            sarg = _shell_arg_of_update(S, uc)
             ok = sarg is not None and ekey(cfg, i, sarg) == ekey(cfg, nid, arg)
             ctx.ob(rid, 'Sampler.run:update-shell(%s)' % unparse(arg), ok, run.where(uc),
                    'batch added to shell `%s`, incremental update written for shell `%s`'
@@ -1212,6 +1213,29 @@ def _is_optional_init(func, attr):
         if not cfg.has_fact(cfg.node_of(n).id, 'self.%s is None' % attr, True):
             return False
     return True
+
+
+def _shell_arg_of_update(cls, call):
+    """The expression that ends up as the `shell` argument of write_shell_update for a call
+    to it or to a one-level wrapper (the wrapper's parameter that it forwards)."""
+    name = call.func.attr
+    if name == 'write_shell_update':
+        return call.args[1] if len(call.args) > 1 else None
+    w = cls.methods.get(name)
+    if w is None:
+        return None
+    params = [p for p in w.params if p != w.self_name]
+    for c in walk_no_nested(w.node):
+        if isinstance(c, ast.Call) and isinstance(c.func, ast.Attribute) and \
+                c.func.attr == 'write_shell_update' and len(c.args) > 1 and \
+                isinstance(c.args[1], ast.Name) and c.args[1].id in params:
+            k = params.index(c.args[1].id)
+            if k < len(call.args):
+                return call.args[k]
+            for kw in call.keywords:
+                if kw.arg == c.args[1].id:
+                    return kw.value
+    return None
 
 
 def _site_key(desc):
